@@ -189,34 +189,34 @@ func (o *Options) populateReporter(c *cli.Context) {
 	o.ReporterConfig.DateFormat = o.GlobalConfig.DateFormat
 	for i := len(c.Lineage()) - 1; i >= 0; i-- {
 		if c.Lineage()[i].IsSet("csv") {
-			o.ReporterConfig.CSV = true
+			o.ReporterConfig.CSV = c.Lineage()[i].Bool("csv")
 		}
 		if c.Lineage()[i].IsSet("no-color") {
-			o.ReporterConfig.Color = false
+			o.ReporterConfig.Color = !c.Lineage()[i].Bool("no-color")
 		}
 
 		if c.Lineage()[i].IsSet("collapse-last") {
-			o.ReporterConfig.CollapseLast = true
+			o.ReporterConfig.CollapseLast = c.Lineage()[i].Bool("collapse-last")
 		}
 
 		if c.Lineage()[i].IsSet("collapse") {
-			o.ReporterConfig.Collapse = true
+			o.ReporterConfig.Collapse = c.Lineage()[i].Bool("collapse")
 		}
 
 		if c.Lineage()[i].IsSet("no-totals") {
-			o.ReporterConfig.Totals = false
+			o.ReporterConfig.Totals = !c.Lineage()[i].Bool("no-totals")
 		}
 
 		if c.Lineage()[i].IsSet("totals-only") {
-			o.ReporterConfig.TotalsOnly = true
+			o.ReporterConfig.TotalsOnly = c.Lineage()[i].Bool("totals-only")
 		}
 
 		if c.Lineage()[i].IsSet("shorten") {
-			o.ReporterConfig.ShortenStrings = true
+			o.ReporterConfig.ShortenStrings = c.Lineage()[i].Bool("shorten")
 		}
 
 		if c.Lineage()[i].IsSet("use-old-reg-reporter") {
-			o.ReporterConfig.UseOldRegReporter = true
+			o.ReporterConfig.UseOldRegReporter = c.Lineage()[i].Bool("use-old-reg-reporter")
 		}
 
 		if c.Lineage()[i].IsSet("internal-template-name") {
